@@ -44,6 +44,7 @@ def validate(ctx, trace):
 
 
 def run(ctx):
+    ctx.tlaps("DataPlane_Proof", ["DataPlane"])
     ctx.assumptions += ["the interleaving semantics of the specification is sound only for race-free executions; the race detector discharges that on every recorded run (a report is itself a violation of C06)",
                         "TLC-validated traces use 6 goroutines x 36 operations; the 16-goroutine runs are judged by exact counts"]
     mc = ctx.tlc("DataPlane_MC", cfg_text=MC % (ctx.pick(5, 6), "FALSE"), workers=8, timeout=1200, coverage=ctx.thorough)
